@@ -182,7 +182,7 @@ func TestCheck(t *testing.T) {
 	}
 	maxFields := 2
 	if env.Thorough() {
-		maxFields = 3
+		maxFields = 4
 	}
 	sec := rep.Add(&report.Section{Name: fmt.Sprintf("struct-shapes-up-to-%d-fields", maxFields), Engine: "enum", Exhaustive: true, Extra: map[string]int64{},
 		Rule: "every struct shape built with reflect.StructOf × prefix × value mode, through NewStore(Structs) and through ParseFields+Apply on a lookup-enabled store; non-trivial = shapes that must be accepted and populated"})
@@ -241,6 +241,10 @@ func TestCheck(t *testing.T) {
 	for si, s := range shapes {
 		if !env.Mine(int64(si)) {
 			continue
+		}
+		if env.Expired() {
+			sec.Exhaustive = false
+			break
 		}
 		for _, via := range []string{"newstore", "apply"} {
 			sec.Evaluations++
